@@ -60,7 +60,8 @@ MaxS(S) == CHOOSE x \in S : \A y \in S : y <= x
 (* 0 = include/pub.h, 1 = src/priv.h, 2 = src/lib.c; the old program's dependencies are a superset of the new one's for the *)
 (* struct / enum / array mutations of the catalogue, so both versions keep every type in the same file                        *)
 RECURSIVE Rank(_, _)
-Rank(ts, i) == MaxS({ts[i].id % 3} \cup {Rank(ts, d) : d \in DepsOf(ts, i)})
+Want(ty) == IF ty.id % 4 < 2 THEN 0 ELSE (ty.id % 4) - 1           \* half of the types would like to be public
+Rank(ts, i) == MaxS({Want(ts[i])} \cup {Rank(ts, d) : d \in DepsOf(ts, i)})
 PlaceWord(r) == CASE r = 0 -> "pub" [] r = 1 -> "priv" [] OTHER -> "src"
 Place == [i \in TRef(types) |-> IF Defined(types, i) THEN PlaceWord(Rank(types, i)) ELSE ""]
 
